@@ -517,7 +517,8 @@ int fp12_test_cyc(const fp12_t a) {
 		fp12_mul(t0, t0, a);
 		fp12_frb(t1, a, 2);
 
-		result = ((fp12_cmp(t0, t1) == RLC_EQ) ? 1 : 0);
+		/* Zero satisfies the equation but is not in the subgroup. */
+		result = ((!fp12_is_zero(a) && fp12_cmp(t0, t1) == RLC_EQ) ? 1 : 0);
 	}
 	RLC_CATCH_ANY {
 		RLC_THROW(ERR_CAUGHT);
@@ -1270,7 +1271,8 @@ int fp18_test_cyc(const fp18_t a) {
 		fp18_mul(t0, t0, a);
 		fp18_frb(t1, a, 3);
 
-		result = ((fp18_cmp(t0, t1) == RLC_EQ) ? 1 : 0);
+		/* Zero satisfies the equation but is not in the subgroup. */
+		result = ((!fp18_is_zero(a) && fp18_cmp(t0, t1) == RLC_EQ) ? 1 : 0);
 	}
 	RLC_CATCH_ANY {
 		RLC_THROW(ERR_CAUGHT);
@@ -1801,7 +1803,8 @@ int fp24_test_cyc(const fp24_t a) {
 		fp24_mul(t0, t0, a);
 		fp24_frb(t1, a, 4);
 
-		result = ((fp24_cmp(t0, t1) == RLC_EQ) ? 1 : 0);
+		/* Zero satisfies the equation but is not in the subgroup. */
+		result = ((!fp24_is_zero(a) && fp24_cmp(t0, t1) == RLC_EQ) ? 1 : 0);
 	}
 	RLC_CATCH_ANY {
 		RLC_THROW(ERR_CAUGHT);
@@ -2331,7 +2334,8 @@ int fp48_test_cyc(const fp48_t a) {
 		fp48_mul(t0, t0, a);
 		fp48_frb(t1, a, 8);
 
-		result = ((fp48_cmp(t0, t1) == RLC_EQ) ? 1 : 0);
+		/* Zero satisfies the equation but is not in the subgroup. */
+		result = ((!fp48_is_zero(a) && fp48_cmp(t0, t1) == RLC_EQ) ? 1 : 0);
 	}
 	RLC_CATCH_ANY {
 		RLC_THROW(ERR_CAUGHT);
@@ -2861,7 +2865,8 @@ int fp54_test_cyc(const fp54_t a) {
 		fp54_frb(t0, a, 18);
 		fp54_mul(t0, t0, a);
 		fp54_frb(t1, a, 9);
-		result = ((fp54_cmp(t0, t1) == RLC_EQ) ? 1 : 0);
+		/* Zero satisfies the equation but is not in the subgroup. */
+		result = ((!fp54_is_zero(a) && fp54_cmp(t0, t1) == RLC_EQ) ? 1 : 0);
 	}
 	RLC_CATCH_ANY {
 		RLC_THROW(ERR_CAUGHT);
